@@ -41,6 +41,16 @@ def renderFields : List SField → Str
 
 variable {σ : Type}
 
+/-- `parseAlias` (and the white space after it): `AS identifier`, or nothing. -/
+def peAlias (S : Src σ) (g : Nat) (e : Expr) (s2 : σ) : Option (SField × σ) :=
+  match scanNW S g s2 with
+  | some (.kw .AS, _, s3) =>
+    match scanNW S g s3 with
+    | some (.ident a, _, s4) => some ((e, a), s4)
+    | _ => none
+  | some (_, before, _) => some ((e, []), before)
+  | none => none
+
 /-- `parseField` + `parseAlias`; `g` is the fuel of the expression parser. -/
 def peField (S : Src σ) (g : Nat) (s : σ) : Option (SField × σ) :=
   let body : Option (Expr × σ) :=
@@ -53,14 +63,7 @@ def peField (S : Src σ) (g : Nat) (s : σ) : Option (SField × σ) :=
       | none => none
   match body with
   | none => none
-  | some (e, s2) =>
-    match scanNW S g s2 with
-    | some (.kw .AS, _, s3) =>
-      match scanNW S g s3 with
-      | some (.ident a, _, s4) => some ((e, a), s4)
-      | _ => none
-    | some (_, before, _) => some ((e, []), before)
-    | none => none
+  | some (e, s2) => peAlias S g e s2
 
 /-- the loop of `parseFields`: fields separated by commas. -/
 def peFieldsLoop (S : Src σ) (g : Nat) : Nat → List SField → σ → Option (List SField × σ)
